@@ -15,6 +15,7 @@ import GrcovModel.Props.C03Lcov
 import GrcovModel.Props.C03Docs
 import GrcovModel.Props.C03Main
 import GrcovModel.Props.C03JsonBytes
+import GrcovModel.Props.C03Html
 namespace Grcov.Props.C03
 open Grcov AList Grcov.Writers
 
